@@ -337,16 +337,18 @@ func drawC17(t *rapid.T) any {
 			}
 		}
 	case "iterator":
-		for i := 0; i < n; i++ {
-			c.Gos = append(c.Gos, *drawGoCase(t, gomodel.TypeCfg{Tags: true, Pool: true, FoldOnly: true, Arrays: true, Recursive: !genExcludedRecursive()}, gomodel.ValCfg{Budget: 25}))
-		}
+		c.Gos = drawGoHistory(t, n, gomodel.TypeCfg{Tags: true, Pool: true, FoldOnly: true, Arrays: true, Recursive: !genExcludedRecursive()},
+			func() gomodel.ValCfg { return gomodel.ValCfg{Budget: 25} })
 	case "unfolder":
-		for i := 0; i < n; i++ {
-			route := rapid.SampledFrom(routes).Draw(t, "route")
-			g := drawGoCase(t, gomodel.TypeCfg{Tags: true, Pool: true, InlineOnlyStruct: true, Recursive: !genExcludedRecursive()},
-				gomodel.ValCfg{Budget: 25, ValidUTF8: route == "json", Finite: route == "json", NoBigUint: route == "ubjson"})
-			g.Route = route
-			c.Gos = append(c.Gos, *g)
+		var rs []string
+		c.Gos = drawGoHistory(t, n, gomodel.TypeCfg{Tags: true, Pool: true, InlineOnlyStruct: true, Recursive: !genExcludedRecursive()},
+			func() gomodel.ValCfg {
+				route := rapid.SampledFrom(routes).Draw(t, "route")
+				rs = append(rs, route)
+				return gomodel.ValCfg{Budget: 25, ValidUTF8: route == "json", Finite: route == "json", NoBigUint: route == "ubjson"}
+			})
+		for i := range c.Gos {
+			c.Gos[i].Route = rs[i]
 		}
 	}
 	return c
